@@ -226,7 +226,7 @@ def r146_pure(ctx, rule="R14.6"):
         r = A.run(fq)
         n += 1
         params = set(r.params.values())
-        hits = inplace_updates_of_foreign_values(r, lambda x, params=params: x in params)
+        hits = inplace_updates_of_foreign_values(r, lambda x, params=params: x in params, ctx.prog)
         ok = not hits
         ctx.ob(rule, fq, hits[0][0].node if hits else None, ok, f"{name} leaves its arguments untouched" if ok else
                f"{name} applies an in-place {hits[0][1]} to an array that can be the caller's own buffer: the next metric evaluated "
